@@ -33,6 +33,53 @@ fn config_of(kind: &str) -> Config {
     Config { is_async: k.1, is_try: k.2, is_spawn: k.3 }
 }
 
+/// `generate_join` reads its input through the `JoinInput` trait: an existing seam. In a simulated history every accessor
+/// call is a scheduling point, so the baton scheduler can switch to another client INSIDE an expansion (between the entry of
+/// `generate_join` and the generation proper).
+struct GatedInput<'a> {
+    inner: &'a JoinInputDefault,
+    ev: u32,
+}
+impl<'a> GatedInput<'a> {
+    fn gate(&self) {
+        if GATED.with(|g| g.get()) {
+            simrt::w::event(self.ev, 0);
+        }
+    }
+}
+thread_local! {
+    static GATED: std::cell::Cell<bool> = const { std::cell::Cell::new(false) };
+    static GATE_EV: std::cell::Cell<u32> = const { std::cell::Cell::new(0) };
+}
+impl<'a> join_impl::join::JoinInput for GatedInput<'a> {
+    type Chain = join_impl::action_expr_chain::ActionExprChain;
+    type Handler = join_impl::handler::Handler;
+    fn futures_crate_path(&self) -> Option<&syn::Path> {
+        self.gate();
+        self.inner.futures_crate_path.as_ref()
+    }
+    fn branches(&self) -> &[Self::Chain] {
+        self.gate();
+        &self.inner.branches
+    }
+    fn handler(&self) -> Option<&Self::Handler> {
+        self.gate();
+        self.inner.handler.as_ref()
+    }
+    fn joiner(&self) -> Option<&proc_macro2::TokenStream> {
+        self.gate();
+        self.inner.custom_joiner.as_ref()
+    }
+    fn transpose_results_option(&self) -> Option<bool> {
+        self.gate();
+        self.inner.transpose_results
+    }
+    fn lazy_branches_option(&self) -> Option<bool> {
+        self.gate();
+        self.inner.lazy_branches
+    }
+}
+
 /// outcome of one library-level expansion, as a string
 fn expand(text: &str, kind: &str) -> String {
     let r = catch_unwind(AssertUnwindSafe(|| {
@@ -41,7 +88,10 @@ fn expand(text: &str, kind: &str) -> String {
             Err(e) => return format!("LEXERR {}", e),
         };
         match syn::parse2::<JoinInputDefault>(ts) {
-            Ok(parsed) => format!("OK {}", generate_join(&parsed, config_of(kind))),
+            Ok(parsed) => {
+                let gi = GatedInput { inner: &parsed, ev: GATE_EV.with(|g| g.get()) };
+                format!("OK {}", generate_join(&gi, config_of(kind)))
+            }
             Err(e) => format!("SYNERR {}", e),
         }
     }));
@@ -161,7 +211,10 @@ fn run_history(hist: &[Vec<Op>], inputs: Arc<Vec<(String, Vec<String>)>>, refs: 
                     for (oi, op) in ops.iter().enumerate() {
                         // scheduling point before every expansion (event id = client * 1000 + op index)
                         simrt::w::event((ci * 1000 + oi) as u32, op.input as u64);
+                        GATED.with(|g| g.set(true));
+                        GATE_EV.with(|g| g.set((500_000 + ci * 1000 + oi) as u32));
                         let s = expand(&inputs[op.input].0, &op.kind);
+                        GATED.with(|g| g.set(false));
                         *count.lock().unwrap() += 1;
                         let h = hash_str(&s).to_string();
                         let expected = refs[op.input].iter().find(|(k, _)| *k == op.kind).map(|(_, h)| h.clone()).unwrap_or_default();
